@@ -6,7 +6,7 @@
 
    The key decoder (the inner function find_key of _send, i.e. events.get_key
    driven over unprocessed_bytes) is a Section parameter: C03 models and proves
-   it (Model/Keys.v); Corr/C08.v instantiates it with that model.
+   it (Model/Keys.v); Model/InputKeys.v instantiates it with that model.
 
    Time is an integer (the harness patches curtsies.input.time with an
    integer-valued clock, so every expression of the code is exact).
